@@ -8,4 +8,8 @@ CHECKS = {
                     'the polarisation set decides the quadratic form for each (N, window, NFFT), lattice sweeps check there is no other dependence.',
             'note': _EX_NOTE},
 }
+CHECKS['C06'] = {'engine': 'BFS', 'design_ref': 'DESIGN.md 6 C06',
+    'technique': 'explicit-state BFS over sides-assignment histories on real Spectrum objects (full-state hashing) + exhaustive basis-vector enumeration of the tools helpers, against axis-derived conversion matrices',
+    'text': 'All histories of sides assignments up to the depth bound (a fixpoint is reached) from every basis PSD vector, both data types, every NFFT in the bound; every distinct state is compared with a reference conversion matrix built from the frequency axes.',
+    'note': _EX_NOTE}
 NOT_BUILT = {}
